@@ -4,6 +4,7 @@
 #define VERIF_LOWER_H
 #include <stdbool.h>
 #include <stddef.h>
+#include <stdlib.h>
 #include <limits.h>
 #include <float.h>
 #include <math.h>
